@@ -275,6 +275,27 @@ func gcmCase(c *ev.Case) {
 			} else {
 				mut = append([]byte(extra), ct...)
 			}
+			if extra == " " || extra == "\n" {
+				// blank space / a line end around an otherwise untouched text: no byte of
+				// magic, salt, ciphertext or tag differs, and the statement does not say
+				// whether surrounding white space belongs to the encoded message. Rejecting
+				// it is fine; accepting it is fine only with the right plaintext.
+				combo := rng.Intn(16)
+				got, err, ok := t.gcmDecrypt(mut, s, a, combo)
+				if !ok {
+					return
+				}
+				c.Logf("GCMDecrypt%s(valid text with %q added at side %d) -> %s, %s", comboStr(combo, true), extra, side, q(got), errStr(err))
+				if err == nil && !bytes.Equal(got, p) {
+					c.Failf("gcm-extended", "GCMDecrypt%s returned %s, nil on a valid text for %s with %q added at the %s", comboStr(combo, true), q(got), q(p), extra, []string{"end", "front"}[side])
+					return
+				}
+				if err == nil {
+					c.Add("gcm_text_space_extension_tolerated", 1)
+				}
+				c.Add("gcm_extensions", 1)
+				continue
+			}
 			if !gcmMustReject(c, t, "gcm-extended", lz("a valid text with %q added at the %s", extra, []string{"end", "front"}[side]), nil, s, a, rng, mut) {
 				return
 			}
